@@ -41,6 +41,9 @@ pub fn prop_info(prop: &str) -> Option<PropInfo> {
 }
 
 fn nontrivial(prop: &str, s: &Stats) -> bool {
+    if prop != "C14" && s.get("conc/steps") > 0 {
+        return s.get("conc/switch_in_flight") >= 1;
+    }
     let sum_prefix = |p: &str| -> u64 { s.0.iter().filter(|(k, _)| k.starts_with(p)).map(|(_, v)| *v).sum() };
     match prop {
         "C04" => s.get("fault/growth") >= 1,
@@ -59,9 +62,23 @@ fn nontrivial(prop: &str, s: &Stats) -> bool {
     }
 }
 
-pub fn gen_trace(prop: &str, rs: u64) -> Trace {
-    if prop == "C14" {
-        conc::generate(rs)
+/// Some properties' checks have a second leg: a share of the runs are concurrent schedules
+/// of the scenarios that concern the property (decided by the run index, so that run i of a
+/// batch is always the same run).
+fn conc_share(prop: &str) -> u64 {
+    match prop {
+        "C14" => 100,
+        "C09" | "C10" | "C11" => 25,
+        "C04" | "C15" => 15,
+        _ => 0,
+    }
+}
+
+pub fn gen_trace_i(prop: &str, rs: u64, i: u64) -> Trace {
+    if (i % 100) < conc_share(prop) {
+        let mut t = conc::generate(rs, prop);
+        t.cfg.prop = prop.to_string();
+        t
     } else {
         gen::generate(prop, rs)
     }
@@ -98,7 +115,7 @@ pub fn cmd_worker(opts: &BTreeMap<String, String>) -> i32 {
             let _ = writeln!(o, "B {i} {rs}");
             let _ = o.flush();
         }
-        let trace = gen_trace(&prop, rs);
+        let trace = gen_trace_i(&prop, rs, i);
         let r = run_trace(&trace, &known_open, false);
         let nt = nontrivial(&prop, &r.stats);
         let loghash = fnv1a(r.log.join("\n").as_bytes());
@@ -361,7 +378,7 @@ pub fn cmd_check(opts: &BTreeMap<String, String>) -> i32 {
         }
         for (clause, f) in by_clause.iter().take(3) {
             violations += 1;
-            let trace = gen_trace(&prop, f.run_seed);
+            let trace = gen_trace_i(&prop, f.run_seed, f.i);
             let full = format!("{root}/replays/{prop}-{}-{}.full.trace", f.run_seed, clause);
             let mut t = trace.clone();
             t.expect = Some(format!("{} {}", clause, f.props.join(",")));
@@ -395,7 +412,7 @@ pub fn cmd_check(opts: &BTreeMap<String, String>) -> i32 {
             }
             continue;
         }
-        let trace = gen_trace(&prop, *rs);
+        let trace = gen_trace_i(&prop, *rs, *i);
         let path = format!("{root}/replays/{prop}-{rs}-process-died.trace");
         let mut t = trace.clone();
         t.expect = Some(format!("process-died {prop}"));
@@ -446,7 +463,7 @@ pub fn cmd_check(opts: &BTreeMap<String, String>) -> i32 {
     let mut samples = vec![];
     for i in 0..3u64.min(runs) {
         let rs = run_seed(seed, &label(&prop), i);
-        let t = gen_trace(&prop, rs);
+        let t = gen_trace_i(&prop, rs, i);
         let mut lines: Vec<String> = t.ops.iter().take(14).map(|o| o.brief()).collect();
         if t.ops.len() > 14 {
             lines.push(format!("... ({} ops in total)", t.ops.len()));
@@ -625,14 +642,14 @@ pub fn cmd_replay(pos: &[String], opts: &BTreeMap<String, String>) -> i32 {
 
 pub fn cmd_gen(opts: &BTreeMap<String, String>) -> i32 {
     let prop = opts.get("prop").cloned().unwrap_or_else(|| "C04".into());
+    let i: u64 = opts.get("i").and_then(|s| s.parse().ok()).unwrap_or(0);
     let rs: u64 = if let Some(s) = opts.get("run-seed") {
         s.parse().unwrap_or(1)
     } else {
         let seed: u64 = opts.get("seed").and_then(|s| s.parse().ok()).unwrap_or(1);
-        let i: u64 = opts.get("i").and_then(|s| s.parse().ok()).unwrap_or(0);
         run_seed(seed, &label(&prop), i)
     };
-    print!("{}", gen_trace(&prop, rs).to_text());
+    print!("{}", gen_trace_i(&prop, rs, i).to_text());
     0
 }
 
